@@ -673,7 +673,13 @@ def run_op(cs, op):
             w, rest = mode[1], mode[2:]
             kth, chunk = (int(x) for x in rest.split("c"))
             faulty = (w, kth, chunk)
-        good = mode in ("p", "b") or mode[0] == "r" or (mode[0] == "f" and mode != "fx") or faulty is not None
+        # the stream the core reader gets for a misbehaving file object: (chunk, failing call, kind, sticky)
+        core_fault = None
+        if faulty is not None:
+            core_fault = (faulty[2], faulty[1] - 1, {"p": "perm", "m": "invalid"}.get(faulty[0], "other"), faulty[0] == "c")
+        elif mode == "o":
+            core_fault = (8192, 1, "invalid", True)     # every read() after the read(0) probe returns too much
+        good = mode in ("p", "b") or mode[0] == "r" or (mode[0] == "f" and mode != "fx") or core_fault is not None
         full = data
         if mode == "r0" or mode == "fe":
             data = b""
@@ -697,24 +703,33 @@ def run_op(cs, op):
                 return "&".join(out) or "none"
             def ren_item(it):
                 return "panic" if it[0] == "panic" else None
-            if faulty is not None:
-                kind = {"p": "perm", "m": "invalid"}.get(faulty[0], "other")
+            if core_fault is not None:
                 ren0 = ren
 
                 def ren(items):
-                    keep = [it for it in items if it[0] != "panic"]
                     out = []
                     for it in items:
-                        out.append("panic" if it[0] == "panic" else ren0([it]))
+                        if it[0] == "ctorfired":
+                            out.append("ctor!")
+                        elif it[0] == "fired":
+                            out[-1] += "!"
+                        elif it[0] in ("panic", "stop"):
+                            out.append(it[0])
+                        else:
+                            out.append(ren0([it]))
                     return "&".join(out) or "none"
                 items = cs.core("read_faulty~%s~%s~%s~%s" % (fm, tag(p), mode, data.hex() or "-"),
-                                lambda: lmcore.read_faulty(fm, p, data, faulty[2], faulty[1] - 1, kind, faulty[0] == "c"), ren)
+                                lambda: lmcore.read_faulty(fm, p, data, *core_fault), ren)
             else:
                 items = cs.core("read~%s~%s~%s" % (fm, tag(p), data.hex() or "-"), lambda: lmcore.read_all(fm, p, data), ren)
             if items is not None:
-                for it in items:
+                if items and items[0][0] == "ctorfired":
+                    items = []              # the constructor raises: no loader, no motif
+                for k, it in enumerate(items):
                     if it[0] != "ok":
                         continue            # errors and panics yield no motif
+                    if k + 1 < len(items) and items[k + 1][0] == "fired":
+                        continue            # the exception of read() wins over the item
                     if it[6] is None:
                         continue            # TRANSFAC record without counts: ValueError, no motif
                     if it[1] == "uniprobe":
@@ -778,7 +793,7 @@ def run_op(cs, op):
                     break
                 except BaseException as e:
                     out.append(exc_outcome(e))
-                    if faulty is None:
+                    if core_fault is None:
                         break
                     after += 1
                     if after > 3:
